@@ -234,6 +234,11 @@ def autoref_stream(ctx, n, order, tts):
             if sign == -1:
                 s.op(A, 'drop', u)
         s.op(A, 'drop', h)
+        if ctx.rng.random() < 0.7:
+            # the next function lands on the node numbers of this one: nothing remembered per
+            # node number (sizes, variables, children) may survive the collection
+            s.op(A, 'gc')
+            ctx.count('collected-between-functions')
 
 
 def kept_handles_stream(ctx, n, order, tts):
